@@ -14,6 +14,7 @@ from .. import codec, core
 from .. import streamtie as st
 from . import c02_common as cc
 from . import c02_hist as ch
+from . import c02_r3 as r3
 
 RULE = ("decoder: streams = frames emitted by the real compressor (small windows so that the output ring restarts), hand-made "
         "raw/RLE/empty-block frames with every header form, multi-frame + skippable concatenations, magicless, plus damaged "
@@ -596,6 +597,17 @@ def search_after_broken_proof(ctx, tie, cd):
     return search
 
 
+def run_round3(ctx, cd, tie, k):
+    """round 3: hand-made legacy frames, hand-made frames reaching into tiny dictionaries, frames naming a dictionary ID"""
+    a = r3.run_legacy_handmade(ctx, random.Random(ctx.seed + 15485863), 150 * k)
+    core.log("hand-made legacy streams (v0.5-v0.7 raw / RLE / empty blocks): %d, violations %d" % a)
+    b = r3.run_dict_handmade(ctx, random.Random(ctx.seed + 32452843), cd, 150 * k)
+    core.log("hand-made frames reaching into 1..1000-byte raw dictionaries: %d, violations %d" % b)
+    c = r3.run_dict_ids(ctx, random.Random(ctx.seed + 49979687), cd, tie, 100 * k)
+    core.log("dictionary-ID histories (lock-step with DictIdModel.v): %d, violations %d" % c)
+    ctx.notes["round3_cases"] = dict(legacy_handmade=a[0], dict_handmade=b[0], dict_id_histories=c[0])
+
+
 def run(ctx):
     ctx.cov["rule"] = RULE
     if ctx.replay_file:
@@ -609,6 +621,10 @@ def run(ctx):
     if os.environ.get("C02_ONLY") == "hist":       # development aid: only the reused-context histories
         core.log("reused-context decoding histories: violations %d" % ch.run_hist(ctx, random.Random(ctx.seed + 7919), cd, 150 * k, tie=tie))
         core.log("decoder histories with a dictionary attached: %d, violations %d" % ch.run_dict_lockstep(ctx, random.Random(ctx.seed + 104729), cd, tie, 16 * k, 2))
+        run_round3(ctx, cd, tie, k)
+        return
+    if os.environ.get("C02_ONLY") == "r3":         # development aid: only the round-3 generators
+        run_round3(ctx, cd, tie, k)
         return
     # ---- decoder
     streams = cc.build_streams(ctx, rng, cd, 60 * k, 40 * k, 25 * k)
@@ -643,6 +659,7 @@ def run(ctx):
     core.log("reused-context decoding histories (dictionaries, prefixes, resets, stable-out, legacy frames): violations %d" % nh)
     nd = ch.run_dict_lockstep(ctx, random.Random(ctx.seed + 104729), cd, tie, 16 * k, 2)
     core.log("decoder histories with a dictionary attached (lock-step with StreamInstDict.v): %d, violations %d" % nd)
+    run_round3(ctx, cd, tie, k)
     nst = cc.run_store_tie(ctx, rng, tie, 60 * k)
     ctx.notes["store_tie_histories_byte_equal"] = nst
     core.log("store tie: %d histories byte-equal" % nst)
